@@ -297,6 +297,9 @@ func Main(t *testing.T, w World) {
 			t.Fatalf("replay file: %v", err)
 		}
 		r := runOnce(t, w, newReplayTape(rf.Tape))
+		for _, n := range r.Notes {
+			fmt.Println("replay-note:", n)
+		}
 		ro := &ReplayOutcome{File: rp}
 		if r.HarnessErr != "" {
 			out.HarnessErrs = append(out.HarnessErrs, r.HarnessErr)
